@@ -4,6 +4,7 @@ itself (MISMATCH lines) or emits the expected observations (EXPECT lines) that a
 import json
 import os
 import random
+import subprocess
 import re
 import time
 
@@ -68,3 +69,459 @@ def run(pid, tier, seed):
     fn(rep, tier, seed, wd)
     shutil.rmtree(wd, ignore_errors=True)
     return rep.finish()
+
+
+# --------------------------------------------------------------------------- generic message pipeline
+import hashlib
+import hmac as _hmac
+
+
+def oracle_key(kp):
+    """KeyPlan from the spec -> key bytes (MD5 only where the spec says so)"""
+    data = bytes(kp["input"])
+    return hashlib.md5(data).digest() if kp["md5"] else data
+
+
+def oracle_mac_ok(plan, key):
+    """HMAC over exactly the bytes the spec's IntegrityPlan names; truncated comparison from the left"""
+    dig = hashlib.sha1 if plan["alg"] == "sha1" else hashlib.sha256
+    mac = _hmac.new(key, bytes(plan["input"]), dig).digest()
+    claimed = bytes(plan["mac"])
+    return len(claimed) <= len(mac) and _hmac.compare_digest(mac[:len(claimed)], claimed)
+
+
+def run_pipeline(cases, wd, tag, trace=True, chunk=4000):
+    """cases -> [(case, obs, exp)] : adapter observations and the specification's expectations (TLC)"""
+    import concurrent.futures as cf
+    res = []
+    chunks = [cases[i:i + chunk] for i in range(0, len(cases), chunk)]
+
+    def one(ci, ch):
+        cp = os.path.join(wd, "%s_%d.cases" % (tag, ci))
+        op = os.path.join(wd, "%s_%d.obs" % (tag, ci))
+        with open(cp, "w") as f:
+            for c in ch:
+                f.write(json.dumps(c) + "\n")
+        p = subprocess.run([STUNH, "codec", cp, op] + (["trace"] if trace else []), stdout=subprocess.PIPE, stderr=subprocess.PIPE, text=True)
+        hang = None
+        if p.returncode == 3 and os.path.exists(op + ".hang"):
+            hang = read_ndjson(op + ".hang")
+        elif p.returncode != 0:
+            raise ToolError("adapter codec failed: " + p.stderr[-1500:])
+        obs = read_ndjson(op)
+        r = tlc_judge("StunMessageJudge.tla", "StunMessageJudge.cfg", {"CASES": cp}, "message judge " + tag)
+        exps = {}
+        for ln in r["out"].splitlines():
+            if ln.startswith('"EXPECT '):
+                e = json.loads(json.loads(ln)[7:])
+                exps[e["i"]] = e
+        m = re.search(r'"JUDGED (\d+)"', r["out"])
+        if not m or int(m.group(1)) != len(ch) or len(exps) != len(ch):
+            raise ToolError("judge saw %s of %d cases" % (m.group(1) if m else None, len(ch)))
+        for f in (cp, op):
+            os.remove(f)
+        out = []
+        omap = {o["i"]: o for o in obs}
+        for k, c in enumerate(ch):
+            out.append((c, omap.get(k + 1), exps[k + 1], hang[0] if hang and hang[0]["i"] == k else None))
+        return out
+
+    with cf.ThreadPoolExecutor(max_workers=6) as ex:
+        futs = [ex.submit(one, ci, ch) for ci, ch in enumerate(chunks)]
+        for f in futs:
+            res += f.result()
+    return res
+
+
+def first_exposed(exp_exposed, ty):
+    for e in exp_exposed:
+        if e["type"] == ty:
+            return e
+    return None
+
+
+def compare(case, obs, exp, hang=None):
+    """field-by-field comparison of what the implementation answered with what the specification expects.
+    Returns (must, asis): must = [(property ids, text)], asis = [text]"""
+    must, asis = [], []
+    if hang is not None or obs is None:
+        return [(["C01"], "the adapter did not return from this case (hang or crash)")], asis
+    if not exp.get("consistent", True):
+        raise ToolError("specification inconsistent on a case (Parse vs WellFormed): %s" % json.dumps(case)[:300])
+    if obs.get("any_panic") or obs.get("traced_panic"):
+        must.append((["C01"], "panic: " + json.dumps(find_panic(obs))[:300]))
+    if obs.get("traced_same") is False and not obs.get("traced_panic"):
+        must.append((["C01"], "answers differ with a tracing subscriber installed"))
+    ep, op = exp["parse"], obs["parse"]
+    if "panic" in op:
+        return must, asis
+    fp_related = (not ep["ok"] and ep.get("err") == "FingerprintMismatch")
+    if ep["ok"] != op["ok"]:
+        pids = ["C02"] + (["C09"] if fp_related or has_fp(case) else [])
+        must.append((pids, "parser %s a buffer the specification %s (%s)" % (
+            "accepted" if op["ok"] else "rejected: " + json.dumps(op), "rejects: " + json.dumps(ep) if not ep["ok"] else "accepts", "")))
+        return must, asis
+    if not ep["ok"]:
+        if "causes" in exp:
+            pair = [op.get("err"), op.get("type", -1)]
+            names = [c[0] for c in exp["causes"]]
+            if op.get("err") not in names:
+                must.append((["C02"], "rejection names %s; the buffer justifies only %s" % (op.get("err"), exp["causes"])))
+            elif op.get("err") in ("AttributeAfterIntegrity", "AttributeAfterFingerprint") and pair not in exp["causes"]:
+                must.append((["C02"], "rejection carries type %s; the offending attributes are %s" % (op.get("type"), exp["causes"])))
+        if ep.get("exact") and (op.get("err") != "Truncated" or op.get("expected") != ep["expected"] or op.get("actual") != ep["actual"]):
+            must.append((["C02", "C17"], "truncation reported as %s, specification %s" % (json.dumps(op), json.dumps(ep))))
+        e2 = {k: v for k, v in ep.items() if k != "exact"}
+        if e2 != op:
+            asis.append("error detail: impl %s spec %s" % (json.dumps(op), json.dumps(e2)))
+    if "hdr" in exp:
+        eh, oh = exp["hdr"], obs.get("hdr", {})
+        if eh != oh:
+            must.append((["C17"] if eh.get("ok") or eh.get("err") != "NotStun" or oh.get("ok") else ["C17", "C19"],
+                         "header decoder: impl %s spec %s" % (json.dumps(oh), json.dumps(eh))))
+        et, ot = exp["typ"], obs.get("typ", {})
+        if et != ot:
+            must.append((["C19"] if len(case["bytes"]) >= 2 else ["C01"], "message type decoder: impl %s spec %s" % (json.dumps(ot), json.dumps(et))))
+    if not ep["ok"]:
+        return must, asis
+    ea, oa = exp["acc"], obs["acc"]
+    for f, pid in (("class", ["C02", "C19"]), ("method", ["C02", "C19"]), ("tid", ["C02", "C19"])):
+        if ea[f] != oa.get(f):
+            must.append((pid, "%s: impl %s spec %s" % (f, oa.get(f), ea[f])))
+    if oa.get("cls_consistent") is not True:
+        must.append((["C02"], "class/method predicates disagree with class()/method()"))
+    # exposure
+    eexp = [(e["type"], e["value"]) for e in ea["exposed"]]
+    oexp = oa.get("exposed")
+    if isinstance(oexp, dict):
+        oexp = None
+    oexp_l = [(e["type"], e["value"]) for e in oexp] if oexp is not None else None
+    if oexp_l != eexp:
+        # who owns it: differences confined to what follows the first integrity attribute are C10
+        def upto_integ(l):
+            out = []
+            for t, v in l:
+                out.append((t, v))
+                if t in (8, 28):
+                    break
+            return out
+        pids = ["C10"] if oexp_l is not None and upto_integ(oexp_l) == upto_integ(eexp) else ["C02", "C10"]
+        must.append((pids, "exposed attributes: impl %s spec %s" % (
+            [t for t, _ in oexp_l] if oexp_l is not None else oa.get("exposed"), [t for t, _ in eexp])))
+    for lk in oa.get("lookup", []) if isinstance(oa.get("lookup"), list) else []:
+        fe = first_exposed(ea["exposed"], lk["type"])
+        want_found = fe is not None
+        if lk["found"] != want_found or lk["has"] != want_found or (want_found and lk["value"] != fe["value"]):
+            pids = ["C10"] if lk["type"] in (8, 28, 32808) else ["C02", "C10"]
+            must.append((pids, "lookup of type %d: impl found=%s has=%s value=%s, specification: %s" % (
+                lk["type"], lk["found"], lk["has"], str(lk["value"])[:80], ("first exposed value %s" % str(fe["value"])[:80]) if fe else "absent")))
+    for t in oa.get("typed", []) if isinstance(oa.get("typed"), list) else []:
+        if t.get("wrong_impl_bad"):
+            must.append((["C08"], "typed decoders of other types did not refuse attribute %d as the wrong implementation: %s" % (t["type"], json.dumps(t["wrong_impl_bad"])[:200])))
+    # integrity (C04): expectation = f(plan, oracle)
+    if "integrity" in oa and "creds" in case:
+        plan = ea["plan"]
+        for k, got in enumerate(oa["integrity"]):
+            if "panic" in got:
+                continue
+            if not plan["present"]:
+                if got.get("ok") or got.get("err") != "MissingAttribute":
+                    must.append((["C04"], "no integrity attribute exposed, validate_integrity answered %s" % json.dumps(got)))
+                continue
+            if not plan["lenOk"]:
+                if got.get("ok"):
+                    must.append((["C04"], "integrity attribute of an illegal length validated: %s" % json.dumps(got)))
+                continue
+            ok = oracle_mac_ok(plan, oracle_key(exp["keyplans"][k]))
+            want = {"ok": True, "alg": plan["alg"]} if ok else {"ok": False, "err": "IntegrityCheckFailed"}
+            if got != want:
+                must.append((["C04"], "validate_integrity with credentials #%d: impl %s, specification+oracle %s (attribute at offset %d)" % (
+                    k, json.dumps(got), json.dumps(want), plan["off"])))
+    # policing (C16)
+    if "police" in oa and "police" in case:
+        for k, got in enumerate(oa["police"]):
+            want = ea["police"][k]
+            sup, req = case["police"][k]
+            if "panic" in got:
+                continue        # reported under C01 above
+            if ea["class"] != "request":
+                continue        # C16 speaks about requests
+            gv = got.get("verdict")
+            if gv != want["verdict"]:
+                must.append((["C16"], "policing with supported=%s required=%s: impl %s spec %s" % (sup, req, json.dumps(got)[:200], json.dumps(want))))
+                continue
+            if want["verdict"] != 0:
+                def dedup(l):
+                    o = []
+                    for x in l or []:
+                        if x not in o:
+                            o.append(x)
+                    return o
+                if got.get("reparse") != {"ok": True} or got.get("class") != "error" or got.get("method") != ea["method"] or got.get("tid") != ea["tid"] \
+                        or not got.get("builder_has_error_code") or got.get("unknown_typed_ok") is not True:
+                    must.append((["C16"], "error response malformed: %s" % json.dumps({k2: v for k2, v in got.items() if k2 != "bytes"})[:300]))
+                if want["verdict"] == 420:
+                    if dedup(got.get("unknown")) != dedup(want["unknown"]):
+                        must.append((["C16"], "UNKNOWN-ATTRIBUTES lists %s, specification %s" % (got.get("unknown"), want["unknown"])))
+                    elif got.get("unknown") != want["unknown"]:
+                        asis.append("UNKNOWN-ATTRIBUTES duplicates: impl %s spec %s" % (got.get("unknown"), want["unknown"]))
+                elif got.get("unknown") is not None:
+                    must.append((["C16"], "a 400 response carries UNKNOWN-ATTRIBUTES %s" % got.get("unknown")))
+    # prefixes (C17)
+    if exp.get("cuts") and "cuts" in obs:
+        for n, (ec, oc) in enumerate(zip(exp["cuts"], obs["cuts"])):
+            epp = {k: v for k, v in ec["parse"].items() if k != "exact"}
+            if oc["parse"] != epp:
+                sev = ec["parse"].get("exact") or oc["parse"].get("ok") or oc["parse"].get("err") != "Truncated" \
+                    or not (n < oc["parse"].get("expected", 0) <= len(case["bytes"])) or oc["parse"].get("actual") != n
+                if sev:
+                    must.append((["C17"], "prefix of %d/%d bytes: impl %s spec %s" % (n, len(case["bytes"]), json.dumps(oc["parse"]), json.dumps(epp))))
+                else:
+                    asis.append("prefix %d byte counts: impl %s spec %s" % (n, json.dumps(oc["parse"]), json.dumps(epp)))
+            if bool(oc["hdr"].get("ok")) != ec["hdr"]:
+                must.append((["C17"], "header decoder on a %d-byte prefix: impl %s spec ok=%s" % (n, json.dumps(oc["hdr"]), ec["hdr"])))
+    return must, asis
+
+
+def has_fp(case):
+    b = case["bytes"]
+    return any(b[i] == 0x80 and b[i + 1] == 0x28 for i in range(20, len(b) - 1, 1))
+
+
+def find_panic(v, path=""):
+    if isinstance(v, dict):
+        if "panic" in v:
+            return {path: v["panic"]}
+        for k, x in v.items():
+            r = find_panic(x, path + "/" + str(k))
+            if r:
+                return r
+    elif isinstance(v, list):
+        for i, x in enumerate(v):
+            r = find_panic(x, path + "/" + str(i))
+            if r:
+                return r
+    return None
+
+
+def enum_cases(cfgs, wd):
+    """skeleton enumeration by TLC (MCStunMessage): invariants on every message + the messages themselves"""
+    cases = []
+    st = tr = 0
+    for cfg in cfgs:
+        op = os.path.join(wd, cfg + ".out")
+        res = run_tlc("MCStunMessage.tla", "MCStunMessage_%s.cfg" % cfg, workers=1, timeout=3000, out_path=op, java_opts=JOPTS)
+        tlc_ok(res, "MCStunMessage " + cfg)
+        with open(op) as f:
+            for ln in f:
+                if ln.startswith('"CASE '):
+                    c = json.loads(json.loads(ln)[5:])
+                    c["src"] = cfg
+                    cases.append(c)
+        os.remove(op)
+        st += res["distinct"]
+        tr += res["generated"]
+    return cases, st, tr
+
+
+# --------------------------------------------------------------------------- case sources
+ALPHA_TYPES = [6, 32802, 32512, 65280, 8, 28, 32808, 36]
+
+
+def gen_messages(n, seed, wd, maxattrs=5, tag="gen"):
+    p = os.path.join(wd, "%s.ndjson" % tag)
+    run_harness(["gen", str(n), str(seed), p, str(maxattrs)])
+    r = read_ndjson(p)
+    os.remove(p)
+    return r
+
+
+def mutate(b, rng):
+    """generic byte-level mutations (no knowledge of the format beyond 'bytes 2..3 are a length')"""
+    b = list(b)
+    k = rng.randrange(9)
+    if k == 0 and b:
+        i = rng.randrange(len(b) * 8)
+        b[i // 8] ^= 1 << (i % 8)
+    elif k == 1 and b:
+        b[rng.randrange(len(b))] = rng.choice([0, 1, 4, 8, 28, 40, 128, 255, rng.randrange(256)])
+    elif k == 2:
+        b.insert(rng.randrange(len(b) + 1), rng.choice([0, 255, rng.randrange(256)]))
+    elif k == 3 and b:
+        del b[rng.randrange(len(b))]
+    elif k == 4 and b:
+        b = b[:rng.randrange(len(b))]
+    elif k == 5:
+        b += [rng.choice([0, 255, rng.randrange(256)]) for _ in range(rng.choice([1, 2, 3, 4, 8, 24]))]
+    elif k == 6 and len(b) >= 4:
+        v = (b[2] * 256 + b[3] + rng.choice([-8, -4, -1, 1, 4, 8, 24])) % 65536
+        b[2], b[3] = v >> 8, v & 255
+    elif k == 7 and len(b) > 24:
+        # swap two 4-byte words of the body
+        i = 20 + 4 * rng.randrange((len(b) - 20) // 4)
+        j = 20 + 4 * rng.randrange((len(b) - 20) // 4)
+        b[i:i + 4], b[j:j + 4] = b[j:j + 4], b[i:i + 4]
+    elif k == 8 and len(b) > 28:
+        # duplicate a 4-byte-aligned chunk at the end (keeps alignment, fixes nothing else)
+        i = 20 + 4 * rng.randrange((len(b) - 20) // 4)
+        b += b[i:i + rng.choice([4, 8, 12, 24, 36])]
+        v = len(b) - 20
+        if rng.random() < 0.7 and v < 65536:
+            b[2], b[3] = v >> 8, v & 255
+    return b
+
+
+def report_must(rep, pid, triples, cases_label):
+    """feed comparison results into the report: violations owned by pid, others counted"""
+    n_must = 0
+    for case, obs, exp, hang in triples:
+        must, asis = compare(case, obs, exp, hang)
+        for t in asis:
+            if len(rep.asis) < 50:
+                rep.asis.append(t[:300])
+        for pids, what in must:
+            if pid in pids:
+                n_must += 1
+                rep.violation("%s: %s" % (case.get("src", cases_label), what), {"kind": "codec_case", "case": slim(case)})
+            else:
+                for p in pids:
+                    rep.note_foreign(p)
+    return n_must
+
+
+def slim(case):
+    c = {k: v for k, v in case.items() if k not in ("gen",)}
+    return c
+
+
+def distinct(cases):
+    return len({bytes(c["bytes"]) for c in cases})
+
+
+# --------------------------------------------------------------------------- C02 / C10 / C17 / C16
+def c02(rep, tier, seed, wd):
+    rng = random.Random(seed)
+    cfgs = ["bodies2", "tails4", "headers"] if tier == "quick" else ["bodies", "tails5", "headers"]
+    cases, st, tr = enum_cases(cfgs, wd)
+    for c in cases:
+        c["lookup"] = ALPHA_TYPES
+    n_enum = len(cases)
+    gm = gen_messages(250 if tier == "quick" else 4000, seed, wd, maxattrs=4)
+    muts = []
+    for g in gm:
+        for _ in range(4 if tier == "quick" else 8):
+            m = mutate(g["bytes"], rng)
+            if rng.random() < 0.3:
+                m = mutate(m, rng)
+            muts.append({"bytes": m, "src": "mutant of generated message %d" % g["id"]})
+    gcs = [{"bytes": g["bytes"], "src": "generated message %d" % g["id"]} for g in gm]
+    allc = cases + gcs + muts
+    triples = run_pipeline(allc, wd, "c02", trace=False)
+    report_must(rep, "C02", triples, "case")
+    acc = sum(1 for (_c, o, e, _h) in triples if e["parse"]["ok"])
+    rep.add_cov(states=st, transitions=max(tr, 1), traces_validated_against_impl=len(allc),
+                enumerated_skeletons=n_enum, generated=len(gcs), mutants=len(muts), accepted_by_spec=acc,
+                distinct_buffers=distinct(allc),
+                samples=[{"bytes": allc[5]["bytes"], "as": allc[5].get("as"), "defect": allc[5].get("defect")},
+                         {"mutant_bytes_len": len(muts[0]["bytes"])}],
+                rule="TLC (MCStunMessage) enumerates every message skeleton (16 attribute letters incl. integrity/fingerprint of right and wrong lengths, 13 header variants, last-attribute defects) up to the configured depth and checks Parse.ok <=> WellFormed, ErrorIsACause, ExposureInv on each; each skeleton, each builder-generated message and byte-level mutants of those are parsed by the implementation and judged by the TLA+ reference decoder (StunMessageJudge): verdict, error variant within the justified causes, class/method/id, exposed (type,value) sequence, first-match lookups")
+    rep.assumptions += ["TLC + Json/IOUtils trusted; mutants are sampled", "error byte counts of mid-body truncations are as-is (not alarmed)"]
+
+
+def c10(rep, tier, seed, wd):
+    cfgs = ["tails4", "bodies2"] if tier == "quick" else ["tails5", "bodies"]
+    cases, st, tr = enum_cases(cfgs, wd)
+    for c in cases:
+        c["lookup"] = ALPHA_TYPES
+    gm = [g for g in gen_messages(300 if tier == "quick" else 3000, seed + 1, wd, maxattrs=4) if g["gen"]["seal"] != 0]
+    gcs = [{"bytes": g["bytes"], "creds": g["creds"][:1], "src": "generated sealed message %d (seal=%d)" % (g["id"], g["gen"]["seal"])} for g in gm]
+    allc = cases + gcs
+    triples = run_pipeline(allc, wd, "c10", trace=False)
+    report_must(rep, "C10", triples, "case")
+    with_integ = sum(1 for (_c, o, e, _h) in triples if e["parse"]["ok"] and e["acc"]["plan"]["present"])
+    tails = {}
+    for (_c, o, e, _h) in triples:
+        if e["parse"]["ok"] and e["acc"]["plan"]["present"]:
+            ts = tuple(x["type"] for x in e["acc"]["exposed"] if x["type"] in (8, 28, 32808))
+            tails[ts] = tails.get(ts, 0) + 1
+    rep.add_cov(states=st, transitions=max(tr, 1), traces_validated_against_impl=len(allc), accepted_with_integrity=with_integ,
+                exposed_tail_shapes={str(k): v for k, v in tails.items()},
+                samples=[{"bytes": allc[7]["bytes"], "as": allc[7].get("as")}],
+                rule="all orders and subsets of {MI, MI256 (3 lengths), FINGERPRINT (4 variants)} after 0-2 ordinary attributes enumerated by TLC with ExposureInv (exposed = prefix up to first integrity, MI256 directly after MI, FINGERPRINT; exposed non-ending attributes end before the offset validate_integrity authenticates); iteration, raw_attribute, has_attribute and typed lookups of the implementation compared with Exposed/Lookup on every accepted case")
+
+
+def c17(rep, tier, seed, wd):
+    cfgs = ["bodies2", "tails4"] if tier == "quick" else ["bodies", "tails5"]
+    cases, st, tr = enum_cases(cfgs, wd)
+    gm = [g for g in gen_messages(400 if tier == "quick" else 3000, seed + 2, wd, maxattrs=3) if len(g["bytes"]) <= (260 if tier == "quick" else 900)]
+    gcs = [{"bytes": g["bytes"], "src": "generated message %d" % g["id"]} for g in gm]
+    allc = cases + gcs
+    for c in allc:
+        c["cuts"] = True
+    triples = run_pipeline(allc, wd, "c17", trace=False, chunk=1500)
+    report_must(rep, "C17", triples, "case")
+    ncuts = sum(len(e.get("cuts", [])) for (_c, o, e, _h) in triples)
+    nmsg = sum(1 for (_c, o, e, _h) in triples if e.get("cuts"))
+    rep.add_cov(states=st, transitions=max(tr, 1), traces_validated_against_impl=nmsg, prefixes_checked=ncuts,
+                samples=[{"bytes": gcs[0]["bytes"] if gcs else allc[0]["bytes"], "cuts": "0..len-1"}], exhaustive_in_cut_points=True,
+                rule="for every well-formed message (TLC-enumerated skeletons and builder-generated ones) EVERY strict prefix is parsed by Message::from_bytes and MessageHeader::from_bytes and compared with ParsePrefix (Truncated{20,n} below 20 bytes, Truncated{len(m),n} from 20 on; header decoder accepts exactly from 20 bytes with the same type/id/length)")
+
+
+def police_sets(types_present, rng, k):
+    alpha = sorted(set(types_present) | {6, 36, 32802, 0x7fff, 0x8000, 0xffff, 0})
+    out = [[[], []], [alpha, []], [alpha, alpha[:2]]]
+    for _ in range(k):
+        sup = [t for t in alpha if rng.random() < 0.6]
+        req = [t for t in alpha if rng.random() < 0.25]
+        out.append([sup, req])
+    return out
+
+
+def c16(rep, tier, seed, wd):
+    rng = random.Random(seed)
+    cfgs = ["bodies2", "tails4"] if tier == "quick" else ["bodies", "tails5"]
+    cases, st, tr = enum_cases(cfgs, wd)
+    cases = [c for c in cases if c["h"] == 1 and c["defect"] == "none"]       # requests
+    gm = [g for g in gen_messages(600 if tier == "quick" else 5000, seed + 3, wd, maxattrs=5) if g["gen"]["class"] == "request"]
+    gcs = [{"bytes": g["bytes"], "src": "generated request %d" % g["id"], "types": [a["d"]["t"] for a in g["gen"]["attrs"]]} for g in gm]
+    for c in cases:
+        c["types"] = [[6, 6, 32802, 32802, 32512, 65280, 8, 8, 28, 28, 28, 32808, 32808, 32808, 32808, 36][x - 1] for x in c["as"]]
+    allc = cases + gcs
+    for c in allc:
+        c["police"] = police_sets(c["types"], rng, 6 if tier == "quick" else 20)
+    triples = run_pipeline(allc, wd, "c16", trace=False)
+    report_must(rep, "C16", triples, "case")
+    verd = {}
+    npol = 0
+    for (_c, o, e, _h) in triples:
+        if e["parse"]["ok"]:
+            for p in e["acc"]["police"]:
+                verd[p["verdict"]] = verd.get(p["verdict"], 0) + 1
+                npol += 1
+    # comprehension-required on all 65536 types: part of the attribute table (C08 machinery)
+    bad = comprehension_table(wd)
+    for t in bad:
+        rep.violation("comprehension_required(%d) is %s" % (t[0], t[1]), {"kind": "table_record", "record": {"type": t[0], "impl": t[1]}})
+    if not all(verd.get(v, 0) > 0 for v in (0, 400, 420)):
+        raise ToolError("vacuity: policing verdicts seen %s" % verd)
+    rep.add_cov(states=st, transitions=max(tr, 1), traces_validated_against_impl=len(allc), policing_calls=npol, verdicts=verd,
+                comprehension_required_types_checked=65536,
+                samples=[{"bytes": allc[3]["bytes"], "police": allc[3]["police"][:2]}],
+                rule="requests (TLC-enumerated skeletons incl. duplicates and hidden attributes after integrity; builder-generated with up to 5 attributes) x supported/required subsets of the types present and absent (empty, full, random); verdict, UNKNOWN-ATTRIBUTES list in message order, class/method/id/ERROR-CODE of the response and its re-parse compared with Police(); comprehension_required compared with 'type < 0x8000' for all 65536 types")
+
+
+def comprehension_table(wd):
+    p = os.path.join(wd, "compr.ndjson")
+    run_harness(["compr", p])
+    recs = read_ndjson(p)
+    os.remove(p)
+    # the rule 'type value < 0x8000' is ComprehensionRequired(t) in StunMessage.tla; evaluated by TLC
+    res = tlc_judge("MCCompr.tla", "MCCompr.cfg", {"TABLE": p + ".in"} if False else {}, "MCCompr")
+    m = re.search(r'"COMPR-REQUIRED-BELOW (\d+)"', res["out"])
+    if not m:
+        raise ToolError("MCCompr did not report the threshold")
+    thr = int(m.group(1))
+    return [(r["t"], r["cr"]) for r in recs if r["cr"] != (r["t"] < thr)]
+
+
+CHECKS.update({"C02": ("model_checking", c02), "C10": ("model_checking", c10), "C17": ("model_checking", c17), "C16": ("model_checking", c16)})
